@@ -32,6 +32,7 @@ func (c CaseSpec) String() string {
 // the same path, and what the engine observed on it.
 type Witness struct {
 	Vector  []string `json:"vector"`
+	Sched   []int    `json:"sched,omitempty"`
 	Obs     []string `json:"obs"`
 	Outcome string   `json:"outcome"` // "ok" | "assert:<id>" | "panic:<key>"
 }
@@ -270,6 +271,9 @@ func (ex *Exec) runPath(fn *ssa.Function, spec CaseSpec) (outcome string, inconc
 	defer ex.solver.EndPath()
 	defer func() {
 		r := recover()
+		if ex.hooks != nil {
+			ex.hooks.finish()
+		}
 		if r == nil {
 			return
 		}
@@ -304,9 +308,6 @@ func (ex *Exec) runPath(fn *ssa.Function, spec CaseSpec) (outcome string, inconc
 		params[i] = p
 	}
 	ex.call(nil, 0, fn, []value{params})
-	if ex.hooks != nil {
-		ex.hooks.finish()
-	}
 	ex.finishWitness("ok")
 	return "ok", ""
 }
@@ -345,7 +346,7 @@ func (ex *Exec) finishWitness(outcome string) {
 	}
 	vec, _ := ex.vectorFor(model)
 	memo := make(map[*Term]uint64)
-	w := &Witness{Vector: vec, Outcome: outcome}
+	w := &Witness{Vector: vec, Outcome: outcome, Sched: append([]int{}, ex.schedVec...)}
 	for _, o := range ex.observes {
 		w.Obs = append(w.Obs, o.tag+"="+ex.obsString(o.v, model, memo))
 	}
